@@ -181,6 +181,17 @@ class RecordManager:
                 " In the future this will fail"
             )
 
+        if question is not None:
+            # Expired records the periodic cleanup has not removed yet are
+            # not replayed to the listener below.  Remove them now, as the
+            # cleanup would, or hearing one of them again would only refresh
+            # the entry and never be reported as new.
+            now = current_time_millis()
+            expired = self.cache.async_expire(now)
+            if expired:
+                self.async_updates(now, [RecordUpdate(record, record) for record in expired])
+                self.async_updates_complete(False)
+
         self.listeners.add(listener)
 
         if question is None:
